@@ -147,6 +147,48 @@ def second_challenge(args):
         w.close()
 
 
+def inner_hello(args):
+    """A connected peer bundles a CLIENT_HELLO-typed message with application data in one genuine sealed datagram (also twice, and while other clients connect with
+    a token generator that repeats itself): the peer stays the client it was announced as - same token in every later event, no second connect, one disconnect -
+    and the tokens of simultaneously connected clients stay distinct."""
+    seed, gap = args
+    import random, struct, os
+    import srvworld as SW
+    rnd = random.Random(seed)
+    space = [struct.pack(">L", 0x40000000 | v) for v in (11, 22, 33)]
+
+    def urandom(n):
+        return rnd.choice(space) if n == 4 else os.urandom(n)
+    w = SW.ServerWorld(seed=seed, conn_timeout=2.0, urandom=urandom)
+    try:
+        w.add_client(1, ("10.9.0.1", 7401))
+        for t in range(30):
+            w.tick()
+        w.inner_hello(1)
+        for t in range(gap):
+            w.tick()
+        w.add_client(2, ("10.9.0.2", 7402))
+        for t in range(30):
+            w.tick()
+        for c in (1, 2):
+            if w.clients[c]["cl"].connected():
+                w.uniq += 1
+                w.clients[c]["cl"].send(w.aid(w.clients[c]["addr"]).to_bytes(4, "big") + b"DATA" + w.uniq.to_bytes(4, "big") + b"later", retry=-1)
+        w.inner_hello(1)
+        for t in range(30):
+            w.tick()
+        w.add_client(3, ("10.9.0.3", 7403))
+        for t in range(30):
+            w.tick()
+        w.client_disconnect(1)
+        for t in range(40):
+            w.tick()
+        w.shutdown()
+        return w.ev
+    finally:
+        w.close()
+
+
 def run(ctx):
     ctx.level = "model_checking"
     ctx.rule = ("events of recorded executions of the real server loop judged by TLC against Trace_Server; distinct = handler events + datagrams in/out; "
@@ -181,6 +223,10 @@ def run(ctx):
     with ProcessPoolExecutor(min(8, len(cj))) as ex:
         ctr = list(ex.map(second_challenge, cj))
     SJ.judge_and_report(ctx, "C10", ctr, ["connected clients transmit their challenge response again (fresh message), %d ticks apart" % j[1] for j in cj])
+    ij = [(ctx.seed + g, g) for g in ((2, 9) if q else (1, 2, 5, 9, 30, 61))]
+    with ProcessPoolExecutor(min(8, len(ij))) as ex:
+        itr = list(ex.map(inner_hello, ij))
+    SJ.judge_and_report(ctx, "C10", itr, ["a connected peer bundles a CLIENT_HELLO-typed message with application data, next client %d ticks later" % j[1] for j in ij])
     jobs = [(ctx.seed + i, 700 if q else 2500) for i in range(3 if q else 16)]
     with ProcessPoolExecutor(min(8, len(jobs))) as ex:
         traces = list(ex.map(token_collisions, jobs))
